@@ -132,6 +132,15 @@ deriving Inhabited
 def Decl.info : Decl → UInfo
   | .enum u _ | .flags u _ | .record u _ _ _ | .interface u _ | .function u _ _ _ _ | .error u _ => u
 
+/-- the `primitive` recorded in a declaration's info is the one of its kind (what the parser guarantees) -/
+def Decl.wf : Decl → Bool
+  | .enum u _ => u.prim == .enum
+  | .flags u _ => u.prim == .flags
+  | .record u _ _ _ => u.prim == .record
+  | .interface u _ => u.prim == .interface
+  | .function u _ _ _ _ => u.prim == .function
+  | .error u _ => u.prim == .error
+
 /-! ## Configuration (the parts the modelled functions read) -/
 
 structure CppCfg where
